@@ -299,6 +299,7 @@ class State:
         self.facts = []      # [(cond term, span)] assumed on the current path
         self.ranges = {}     # scoped range refinements derived from the facts
         self.dead = False
+        self.skip = None     # condition under which the current loop iteration has already ended (`continue`)
 
 class Frame:
     def __init__(self, d):
@@ -835,6 +836,13 @@ class Interp:
         for c, S, v in results:
             if S.dead and c != TRUE:
                 A.facts.append((bnot(c), None)); sym.refine(bnot(c), A.ranges)
+        # `continue` taken in some branches: the iteration has ended under the disjunction of those paths
+        if any(S.skip is not None for _, S, _ in alive):
+            sk = FALSE
+            for c, S, v in reversed(alive):
+                s_ = S.skip if S.skip is not None else FALSE
+                sk = s_ if c == TRUE else b_or(b_and(c, s_), b_and(bnot(c), sk))
+            A.skip = sk if sk != FALSE else None
         if len(alive) == 1:
             c, S, v = alive[0]
             self.merge_into(A, [(TRUE, S)])
@@ -1098,9 +1106,21 @@ class Interp:
         if e.get('fn'): return FnItemV(e['fn'], self.resolve_ty(e['ty']))
         return self.top('zst', e)
 
-    def e_Block(self, e):
-        for s in e['stmts']:
+    def e_Block(self, e, start=0):
+        for k_, s in enumerate(e['stmts']):
+            if k_ < start: continue
             if self.st.dead: return UNIT
+            sk = self.st.skip
+            if sk is not None:
+                if sk == TRUE: return UNIT
+                # some paths have left the iteration: the remaining statements run on the others only
+                def rest(e=e, k_=k_):
+                    self.st.skip = None
+                    return self.e_Block(e, k_)
+                def gone():
+                    self.st.skip = TRUE
+                    return UNIT
+                return self.branch([(sk, gone), (TRUE, rest)])
             if s['k'] == 'Let':
                 if 'init' in s:
                     v = self.eval(s['init'])
@@ -1111,6 +1131,16 @@ class Interp:
             else:
                 self.eval(s['e'])
         if self.st.dead: return UNIT
+        sk = self.st.skip
+        if sk is not None and 'expr' in e:
+            if sk == TRUE: return UNIT
+            def rest2(e=e):
+                self.st.skip = None
+                return self.eval(e['expr'])
+            def gone2():
+                self.st.skip = TRUE
+                return UNIT
+            return self.branch([(sk, gone2), (TRUE, rest2)])
         if 'expr' in e: return self.eval(e['expr'])
         return UNIT
 
@@ -1368,7 +1398,11 @@ class Interp:
 
     def e_Loop(self, e): return self.top('bare loop', e)
     def e_Break(self, e): return self.top('break', e)
-    def e_Continue(self, e): return self.top('continue', e)
+    def e_Continue(self, e):
+        # the rest of the iteration is skipped on this path; the enclosing blocks stop (or guard) their remaining statements
+        if getattr(self, 'loop_depth', 0) <= 0 or e.get('label_outer'): return self.top('continue outside a modelled loop', e)
+        self.st.skip = TRUE
+        return UNIT
     def e_Static(self, e): return self.top('static ' + e['path'], e)
 
     # -------------------------------------------------------------- loops
@@ -1383,7 +1417,16 @@ class Interp:
             pat = some['pat']['subs'][0]['pat']; body = some['body']
         except Exception:
             return self.top('unrecognised for-loop shape', e)
-        self.iterate(it, lambda elem: (self.bind(pat, elem), self.eval(body))[1], e)
+        def one(elem):
+            self.bind(pat, elem)
+            r = self.eval(body)
+            self.st.skip = None          # a `continue` ends this iteration only
+            return r
+        self.loop_depth = getattr(self, 'loop_depth', 0) + 1
+        try:
+            self.iterate(it, one, e)
+        finally:
+            self.loop_depth -= 1
         return UNIT
 
     def iter_source(self, it):
